@@ -223,7 +223,13 @@ func flattenS(v reflect.Value, path string, out map[string]string) {
 			return
 		}
 		for _, f := range structFields(v.Type()) {
-			flattenS(v.FieldByIndex(f.Index), path+"."+f.Name, out)
+			fv := v.FieldByIndex(f.Index)
+			if f.Anonymous && fv.Kind() == reflect.Ptr && fv.IsNil() {
+				// nil nullable-embedded pointer ≡ pointer to an all-zero message (normal form of C04)
+				flattenS(reflect.Zero(fv.Type().Elem()), path+"."+f.Name, out)
+				continue
+			}
+			flattenS(fv, path+"."+f.Name, out)
 		}
 	case reflect.Slice:
 		if v.Type().Elem().Kind() == reflect.Uint8 {
